@@ -69,5 +69,43 @@ pub open spec fn expected_ops(index: bool, stored_rowid: Option<i64>, new_rowid:
 
 //@ extract src/database/node.rs :: impl Writeable for NodeToInsert / fn write
 //@ end
+
+// ---- the local mutation path: what it hands to Node::write (src/database/mutation_query.rs, the block of get_mutate_query that
+// finishes a row that IS written; lifted by rule E9).  The text of the previous version is recorded earlier in that function
+// (not under contract); here: the row that is written carries its current content and the text of that content.
+pub struct Error { x: u8 }
+pub mod serde_json {
+    use vstd::prelude::*;
+    pub struct Error { x: u8 }
+    pub struct Value { x: u8 }
+    /// the serialisation of a JSON value (uninterpreted)
+    pub uninterp spec fn spec_to_string(v: Value) -> Seq<char>;
+    #[verifier::external_body]
+    pub fn to_string(v: &Value) -> (r: Result<String, Error>) ensures r is Ok ==> r->Ok_0@ == spec_to_string(*v) { unimplemented!() }
+}
+impl From<serde_json::Error> for Error { #[verifier::external_body] fn from(e: serde_json::Error) -> Error { unimplemented!() } }
+/// the text the full-text index holds for a JSON content (node::extract_json: appends it to the buffer)
+pub uninterp spec fn spec_text(v: serde_json::Value) -> Seq<char>;
+#[verifier::external_body]
+pub fn extract_json(v: &serde_json::Value, buff: &mut String) -> (r: std::result::Result<(), Error>)
+    ensures r is Ok ==> final(buff)@ == old(buff)@ + spec_text(*v)
+{ unimplemented!() }
+pub struct MutationQuery { x: u8 }
+
+//@ extract src/database/mutation_query.rs :: struct NodeToMutate
+//@ end
+// `node` is `&mut node_to_mutate.node`'s content in the enclosing function: a field disjoint from every other field the block
+// touches (the borrow checker guarantees it there); in the lifted function it is a separate parameter
+//@ extract src/database/mutation_query.rs :: impl MutationQuery / fn get_mutate_query as MutationQuery::lifted_written_row
+//@ lift "else if let Some(node) = &mut node_to_mutate.node {" :: fn lifted_written_row(node: &mut Node, node_to_mutate: &mut NodeToMutate, json: serde_json::Value, date: i64) -> (r: std::result::Result<(), Error>) tail "Ok(())"
+//@ spec
+        ensures
+            // [written_row_is_handed_to_the_index_with_its_current_text] a row that the local mutation path writes carries its current content, the operation's date, and - whatever the previous text was - the text of that current content for the index (Node::write removes the previous text and adds this one)
+            r is Ok ==> final(node)._json is Some && final(node)._json->Some_0@ == serde_json::spec_to_string(json)
+                && final(node).mdate == date
+                && final(node_to_mutate).node_fts_str is Some && final(node_to_mutate).node_fts_str->Some_0@ == spec_text(json),
+            // [previous_text_and_index_flag_left_alone] the text recorded for the previous version and the entity's indexing flag are not touched here
+            final(node_to_mutate).old_fts_str == old(node_to_mutate).old_fts_str && final(node_to_mutate).enable_full_text == old(node_to_mutate).enable_full_text,
+//@ end
 } // verus!
 fn main() {}
